@@ -141,10 +141,7 @@ func runC18(tb ev.TB, p c18Prog) ev.Result {
 	}
 	// no key
 	dn, err := entry.FromMultihashWithIO(ctx, st.API(), e.GetHash(), provider, noio)
-	if err != nil {
-		tb.Fatalf("reader without a key cannot decode the block at all: %v", err)
-	}
-	if len(dn.GetNext())+len(dn.GetRefs()) != 0 {
+	if err == nil && len(dn.GetNext())+len(dn.GetRefs()) != 0 { // failing to decode also yields no links
 		tb.Fatalf("reader without a key obtained links: %v %v", dn.GetNext(), dn.GetRefs())
 	}
 	// different key
